@@ -8,7 +8,7 @@ Definition count_slot (r : row) (sl : Z) : nat := length (filter (fun o => o_slo
 Definition at_most_one (r : row) (sl : Z) : bool := Nat.leb (count_slot r sl) 1.
 
 Definition opspec_wf (r : row) (o : opspec) : bool :=
-  zin 0 (o_kind o) 4 && zin 0 (o_slot o) 11 && zin 0 (o_cls o) 17 &&
+  zin 0 (o_kind o) 4 && zin 0 (o_slot o) 14 && zin 0 (o_cls o) 17 &&
   (* encoded register slots carry a register class; fixed operands are not encoded *)
   (if (o_slot o =? 1) || (o_slot o =? 3) || (o_slot o =? 4) || (o_slot o =? 5) then (o_kind o =? 0) && (0 <? o_cls o) && (o_fixed o =? -1) else true) &&
   (if o_slot o =? 2 then zin 0 (o_kind o) 3 && (o_fixed o =? -1) && ((o_kind o =? 1) || (0 <? o_cls o)) else true) &&
@@ -22,6 +22,8 @@ Definition opspec_wf (r : row) (o : opspec) : bool :=
   (if o_slot o =? 3 then negb (r_kind r =? 0) else true) &&
   (if o_slot o =? 8 then (o_kind o =? 1) && r_moffs r && negb (r_modrm r) else true) &&
   (if o_slot o =? 10 then (o_kind o =? 3) && ((o_immsz o =? 1) || (o_immsz o =? 2) || (o_immsz o =? 4)) && (0 <=? o_immoff o) && (o_immoff o + o_immsz o <=? r_imm r) else true) &&
+  (if o_slot o =? 13 then r_modrm r && (o_kind o =? 1) && (r_mod r =? 1) else true) &&
+  (if (o_slot o =? 11) || (o_slot o =? 12) then r_modrm r && (if o_slot o =? 11 then o_kind o =? 1 else (o_kind o =? 0) && (0 <? o_cls o)) else true) &&
   (if o_slot o =? 9 then (o_kind o =? 1) && zin 0 (o_fixed o) 8 && zin 0 (o_immval o) 2 else true).
 
 Definition row_wf (r : row) : bool :=
@@ -42,6 +44,14 @@ Definition row_wf (r : row) : bool :=
 
 Definition bucket_row_ok (o : Z) (r : row) : bool :=
   if r_ri r then r_opc r / 8 =? o / 8 else r_opc r =? o.
+
+(* the judge looks a denotation's row up again by id (row_of): the row found must read names and decorations like the bucket's row *)
+Definition row_same_reading (r r' : row) : bool :=
+  (r_name r =? r_name r') && (r_kind r =? r_kind r') && (r_pp r =? r_pp r') && Bool.eqb (r_er r) (r_er r') &&
+  Bool.eqb (has_mem_operand r) (has_mem_operand r').
+
+Definition bucket_row_of_ok (row_of : Z -> option row) (rs : list row) : bool :=
+  forallb (fun r => match row_of (r_id r) with Some r' => row_same_reading r r' | None => false end) rs.
 
 Fixpoint zrange (n : nat) : list Z := match n with O => [] | S k => zrange k ++ [Z.of_nat k] end.
 Definition zrange256 : list Z := zrange 256.
